@@ -90,6 +90,13 @@ def generate(rng, tier, rep):
         c.update({'fails': [], 'errs': [], 'ran': 2, 'before': (b'\xff\xfe binary \x00\n' * (1 + k) + b'caf\xe9 latin-1\n').hex(), 'after': '', 'intact': False,
                   'cut': 0, 'big': False, 'end': end, 'verbose': ['-v', '-vv'][k % 2]})
         cases.append(c)
+    # the same with a parent whose stdout can only encode ASCII and a child whose (valid UTF-8) stderr is not ASCII: whatever
+    # happens while the parent shows the child's stderr, the error for the layer must have been recorded
+    for k, end in enumerate(['exit0', 'exit3', 'kill', 'segv'][:{'quick': 4, 'thorough': 4, 'search': 1}[tier]]):
+        c, _ = fake_case(rng, 'quick')
+        c.update({'fails': [], 'errs': [], 'ran': 2, 'before': ('caf\u00e9 \u4e2d\u6587 \u2603\n' * (1 + k)).encode('utf-8').hex(), 'after': '', 'intact': False,
+                  'cut': 0, 'big': False, 'end': end, 'verbose': ['-v', '-vv'][k % 2], 'stdout_encoding': 'ascii'})
+        cases.append(c)
     # a complete report whose stderr pipe stays open (held by a grandchild) long after the child has exited
     for hold in {'quick': [12], 'thorough': [12, 31], 'search': []}[tier]:
         c, _ = fake_case(rng, 'quick')
@@ -102,6 +109,9 @@ def generate(rng, tier, rep):
         how = ['exit0', 'exit3', 'kill', 'segv'][i % 4]
         where = ['import', 'setUp', 'body', 'tearDown', 'none', 'spawn'][(i // 4) % 6]
         cases.append({'kind': 'real', 'how': how, 'where': where, 'ntests': 1 + i % 3, 'bad': i % 2})
+    # real children that finish normally and report the same failing name more than once (--repeat)
+    for i in range({'quick': 3, 'thorough': 12, 'search': 0}[tier]):
+        cases.append({'kind': 'real', 'how': 'exit0', 'where': 'none', 'ntests': 1 + i % 3, 'bad': 1, 'repeat': 2 + i % 2})
     for c in cases:
         rep.count('kind=%s' % c['kind'])
         if c['kind'] == 'fake':
@@ -116,14 +126,17 @@ def generate(rng, tier, rep):
 def world_of(c):
     layer = {'name': 'La', 'bases': [], 'kind': 'instance', 'hooks': {'setUp': ['ok'], 'tearDown': ['ok']}}
     if c['kind'] == 'fake':
-        return {'layers': [layer], 'tests': [{'layer': 0}], 'options': ['-j2'] + ([c['verbose']] if c.get('verbose') else []),
-                'script_parts': [os.path.join(fw.HARNESS, 'fakechild.py')]}
+        w = {'layers': [layer], 'tests': [{'layer': 0}], 'options': ['-j2'] + ([c['verbose']] if c.get('verbose') else []),
+             'script_parts': [os.path.join(fw.HARNESS, 'fakechild.py')]}
+        if c.get('stdout_encoding'):
+            w['stdout_encoding'] = c['stdout_encoding']
+        return w
     weird = ['we\rird\nname (x)', 'tëst \x0b vt', 'trailing blank ', 'two\r\nlines', 'x' * 200, '\x85 nel']
     w = {'layers': [layer], 'tests': [dict({'layer': 0, 'body': 'fail' if (c['bad'] and i == 0) else 'ok'},
                                            **({'str': weird[(i + c['ntests']) % len(weird)], 'body': ['fail', 'error'][i % 2]}
                                               if c['where'] == 'none' else {}))
                                       for i in range(c['ntests'])],
-         'options': ['-j2'], 'script_parts': [os.path.join(fw.HARNESS, 'teechild.py')]}
+         'options': ['-j2'] + (['--repeat', str(c['repeat'])] if c.get('repeat') else []), 'script_parts': [os.path.join(fw.HARNESS, 'teechild.py')]}
     if c['where'] == 'import':
         w['die_import'] = c['how']
     elif c['where'] == 'setUp':
@@ -200,6 +213,7 @@ def to_coq(c, o):
                 return ' '.join(s.strip().splitlines()).encode('utf-8')
             fl = [norm(T['str']) for T in w['tests'] if T['body'] == 'fail']
             el = [norm(T['str']) for T in w['tests'] if T['body'] == 'error']
+            fl, el = fl * c.get('repeat', 1), el * c.get('repeat', 1)      # every iteration reports its failures again
             truth = '(Some (%s, %s, %s))' % (g_Z(len(w['tests'])), g_list([g_bytes(x) for x in fl]), g_list([g_bytes(x) for x in el]))
             intact = True
     return ('{| stderr_bytes := %s; spawned := %s; truth := %s; intact := %s; r_ran := %s; r_fail := %s; r_err := %s; '
